@@ -6,6 +6,9 @@ ids = [json.loads(l)['id'] for l in open(os.path.join(ROOT, 'properties.jsonl'))
 
 E3 = "smallscope (E3): bounded-exhaustive enumeration of inputs/histories on the real code against a reference oracle"
 CHECKS = {
+ "C01": dict(cat="model_checking", eng="E2 bubblesim (synctest, fake clock, mocknet)", tech="exhaustive enumeration of operation histories x pin variants x deviation points (follower lag with/without snapshot+log truncation, snapshot, restart, kill/recover from a disk copy, isolated leader) executed on real Raft peers; invariants evaluated at every quiescent state",
+   text="1 and 3 REAL raft.Consensus peers (hashicorp/raft, boltdb on disk, go-libp2p-raft transport, leader redirect over gorpc) on a libp2p mocknet inside synctest bubbles with a fake clock. Every history over the op alphabet (pin variants x 2 CIDs x submitting role, unpin) up to length 3 (thorough 4) with at most 1 (thorough 2) composite deviation at every position, plus all 14 pin variants as single-op histories through redirect, log, snapshot and restore. Oracle in every quiescent state: each member's pinset is the result of a prefix of the acknowledged sequence (own field-by-field comparator), an acknowledged operation is visible on the committing leader at once, a peer that has caught up (shows a marker committed after the history) holds exactly the whole sequence and so does its state read offline after shutdown, tracker hand-over matches the committed operations.",
+   note="Kills are taken at quiescent points (disk image = copy of the data folder); torn writes inside boltdb / snapshot files are not modelled. Leader identity is chosen by hashicorp/raft's randomised timeouts: histories address roles. An operation whose acknowledgement failed may or may not be part of the sequence (both accepted).", ref="DESIGN.md §4 C01"),
  "C11": dict(cat="exploration", eng="E3 smallscope", tech="bounded-exhaustive enumeration (every route x method x value alphabet, one-at-a-time and pairs) on the real REST handler with recording RPC services",
    text="Every live mux route x 7 methods x valid/invalid value of every path variable and of every pin/add option (singles, then all pairs) x bodies x 3 credential configurations x 19 presented credentials, plus the bundled client library round trip, all executed against the real rest.API over loopback HTTP with recording RPC services; oracle from the property text (4xx and zero RPC calls, or exactly the route's call with the carried arguments; one JSON document; 401 and nothing performed without valid credentials). Exhaustive within the stated alphabets, which is the level a finite input-space property admits.",
    note="Alphabets contain one representative per code-visible distinction; sharded add is checked for refusal/body rules only; destination peers of RPC calls are not observable in-process.", ref="DESIGN.md §4 C11"),
@@ -56,7 +59,7 @@ m = {
    "add_only": True},
  "engines": [
    {"name": "E1 bubblesched", "path": "harness/lib/e1, shim/sched, shim/sync, tools/mkoverlay", "serves_properties": ["C18"], "kind_free_text": "stateless preemption-bounded DFS over schedules of the real code under a cooperative scheduler inside testing/synctest bubbles"},
-   {"name": "E2 bubblesim", "path": "harness/lib/clus + per-check drivers", "serves_properties": ["C16"], "kind_free_text": "event/fault-level exhaustive exploration of real components inside synctest bubbles (fake clock, quiescence detection)"},
+   {"name": "E2 bubblesim", "path": "harness/lib/clus + per-check drivers", "serves_properties": ["C01","C16"], "kind_free_text": "event/fault-level exhaustive exploration of real components inside synctest bubbles (fake clock, quiescence detection)"},
    {"name": "E3 smallscope", "path": "harness/cNN", "serves_properties": ["C11","C12","C13","C14","C15"], "kind_free_text": "bounded-exhaustive inputs / explicit-state BFS over call histories against small reference models"},
  ],
  "checks": checks,
